@@ -51,11 +51,13 @@ CLAIMED = {
              "recover_wal's empty-log branch (re-derivable Tantivy flush) is out of scope by rule.",
         design_ref="DESIGN.md §4 C03"),
     "C04": dict(
-        technique="MIR must-pass-through on the replay branch of recover_wal + guard-edge (inequality) dominance in open_locked",
+        technique="MIR must-pass-through on the replay branch of recover_wal + guard-edge (inequality) dominance in open_locked + interprocedural single-publication-point window rule + error-exit/control-dependence rule for replay appliers",
         text="Partial (idempotence link): the branch of recover_wal that applied pending records returns Ok only through apply_records -> record_checkpoint -> "
              "persist_header(self.header) -> sync_all, so the advanced wal_sequence is durable before the open returns and a second open cannot replay the same "
-             "records; open_locked rewrites the header on the TOC-recovery arm only under the differs-from-stored test, with the recovered values.",
-        note="Not decided: crashes *during* recovery (crash points), nested recovery; equality of the recovered state with an uninterrupted recovery.",
+             "records; open_locked rewrites the header on the TOC-recovery arm only under the differs-from-stored test, with the recovered values; no header persist is reachable between apply_records and record_checkpoint "
+             "(single publication point); the delete/supersede appliers have no error exit that depends on the frame's status (replay is idempotent).",
+        note="Not decided: crashes *during* recovery in general (crash points), nested recovery; equality of the recovered state with an uninterrupted recovery. Known finding (open): "
+             "rebuild_indexes persists the header (old wal_sequence) inside the replay window, so a crash between the two header writes duplicates the replayed frames.",
         design_ref="DESIGN.md §4 C04"),
     "C06": dict(
         technique="crate-wide who-may-mutate scan of Toc.frames (resolved callees through &mut borrows) + data-dependence of Frame.id + must-pass-through for the pending counter",
@@ -94,9 +96,10 @@ CLAIMED = {
              "Known findings (open): on the Tantivy path the fetch limit depends on the cursor, so total_hits and the ranked list differ per page.",
         design_ref="DESIGN.md §4 C16"),
     "C09": dict(
-        technique="explicit-flow taint from the lossy sketch candidate set to the engines' hard filter + guard-edge dominance for the no_sketch escape hatch + fallback presence",
+        technique="explicit-flow taint from the lossy sketch candidate set to the engines' hard filter + guard-edge dominance for the no_sketch escape hatch + fallback presence + per-arm table of propagated error sources in the per-candidate resolution step",
         text="Partial: decides that no lossy (thresholded, truncated) candidate set becomes the hard filter of the exact engines on the default path, that request.no_sketch really "
-             "disables the stage, and that the Tantivy path keeps its three lex fallbacks with the same filter.",
+             "disables the stage, and that the Tantivy path keeps its three lex fallbacks with the same filter; the errors for which try_tantivy_search silently drops a candidate (propagated by resolve_chunk_context, "
+             "per role arm) are the reviewed set - in particular a failing parent-manifest lookup does not drop a chunk frame.",
         note="Not decided: recall itself (values). Known finding (open): the sketch set is a hard filter on the default path (design decision of the search path).",
         design_ref="DESIGN.md §4 C09"),
     "C26": dict(
@@ -126,9 +129,9 @@ CLAIMED = {
         note="Not decided: byte equality of content, equality of search/timeline results, crash-atomicity of the in-place rewrite.",
         design_ref="DESIGN.md §4 C42"),
     "C13": dict(
-        technique="edge-cut reachability of VecIndex::search past the dimension comparison (sibling entry points) + shape of the exact arm (score-all, ascending comparator, truncate after sort)",
+        technique="edge-cut reachability of VecIndex::search past the dimension comparison (sibling entry points) + shape of the exact arm (score-all, ascending comparator, truncate after sort) + constant agreement in the lane-blocked distance kernel (blocks, lane offsets, tail start, remainder share one lane width)",
         text="Partial: both vector entry points reach VecIndex::search only past query.len() == index dimension (mismatch -> VecDimensionMismatch); the exact arm scores every "
-             "document, sorts ascending on distance and truncates afterwards. Fails closed if the ordering mechanism is replaced by one the rule does not recognise.",
+             "document, sorts ascending on distance and truncates afterwards; the SIMD distance kernel partitions the index range (len/L blocks of L lanes, tail from chunks*L, len%L tail elements, one L). Fails closed if the ordering mechanism is replaced by one the rule does not recognise.",
         note="Not decided: floating-point semantics (NaN ordering), approximate representations, identity of results after reopen.",
         design_ref="DESIGN.md §4 C13"),
     "C14": dict(
@@ -138,10 +141,11 @@ CLAIMED = {
         note="Not decided: membership over histories (values). Thorough tier also analyses the `wide` feature configuration, where the Hnsw representation is reachable (known finding, config=wide).",
         design_ref="DESIGN.md §4 C14"),
     "C07": dict(
-        technique="variant-table agreement of the canonical codec pair, edge-cut must-pass-through for the length test, sort-key agreement, provenance data-flow of chunk manifests",
+        technique="variant-table agreement of the canonical codec pair, edge-cut must-pass-through for the length test, sort-key agreement, provenance data-flow of chunk manifests, seek-before-read pairing on File handles (shared cursor discipline)",
         text="Partial (codec pairing and provenance): every CanonicalEncoding produced is decoded by its inverse callee, stored-payload reads return only past the canonical_length "
              "equality test, a chunked document's canonical payload is the concatenation of its children ordered by (chunk_index, id), and a chunk manifest that replaces the "
-             "stored payload on read must derive from the payload bytes themselves.",
+             "stored payload on read must derive from the payload bytes themselves; every std Read call on a File is dominated by a seek on the handle in the same function "
+             "(cloned handles share one cursor).",
         note="Not decided: byte equality of reads with puts (values), text normalisation. Known finding (open): chunk manifests planned from extracted (lossy) text make the "
              "canonical payload of a large non-UTF-8 document differ from the stored bytes.",
         design_ref="DESIGN.md §4 C07"),
@@ -165,11 +169,11 @@ CLAIMED = {
         note="Not decided: round-trip equality for arbitrary values; bincode/serde themselves (external).",
         design_ref="DESIGN.md §4 C30"),
     "C17": dict(
-        technique="lock-follows-file typestate at every rename over the memory path + constructor pairing / who-may-unlock tables + guard-edge checks on lock mode changes",
-        text="Partial: wherever the file at the memory's path is replaced by rename, every Ok exit after it is dominated by a store of a freshly acquired FileLock (on the new inode) "
-             "into Memvid.lock; every constructor pairs file and lock from one acquisition; the OS unlock happens only inside FileLock; the exclusive lock is given up only when "
+        technique="forward typestate (which inode Memvid.lock is held on) over every exit, Ok or Err, of functions that rename over the memory path + constructor pairing / who-may-unlock tables + guard-edge checks on lock mode changes",
+        text="Partial: wherever the file at the memory's path is replaced by rename, every exit after the rename holds a FileLock acquired on the staged/re-opened inode (in a mode that excludes writers) and every exit "
+             "without the rename still holds (or has restored) the original lock; every constructor pairs file and lock from one acquisition; the OS unlock happens only inside FileLock; the exclusive lock is given up only when "
              "nothing is dirty or pending; read_only is cleared only after a successful upgrade.",
-        note="Not decided: interleavings of two processes, flock semantics of the platform (fs2 trusted). The rule found a genuine defect (lock left on the pre-rename inode), repaired by fix commit 0f828e2.",
+        note="Not decided: interleavings of two processes, flock semantics of the platform (fs2 trusted). The rule found a genuine defect (lock left on the pre-rename inode), repaired by fix commits 0f828e2 and e6dc2cd (the second keeps readers admitted: shared mode).",
         design_ref="DESIGN.md §4 C17"),
     "C18": dict(
         technique="interprocedural effect analysis: reachability of memory-file writes from 146 public entry points without passing a writability guard (guard-establishing callees summarised to a fixpoint over ~1480 functions) + call-graph exclusion for the snapshot path",
@@ -211,12 +215,14 @@ CLAIMED = {
         note="Not decided: filter false-positive behaviour, simhash values. Known finding (open): frame_id is not serialised and is rebuilt from the entry position.",
         design_ref="DESIGN.md §4 C39"),
     "C02": dict(
-        technique="who-may-call + closure-provenance of the staging operation, MIR dominance in with_staging_lock (rename after op Ok and sync; Err arm discards and restores), and a frozen reference table of in-place writer sets per public entry point computed on the call graph with staging closures cut",
+        technique="who-may-call + closure-provenance of the staging operation, MIR dominance in with_staging_lock (rename after op Ok and sync; Err arm discards and restores), and a frozen reference table of in-place writer sets per public entry point computed on the call graph with staging closures cut, and type-graph coverage of file-offset fields by the WAL-growth offset adjuster",
         text="Partial (staging discipline): commit_from_records runs only inside a closure passed to with_staging_lock; the rename of the staged copy is dominated by op's Ok arm and a sync "
              "of the staging handle, the Err arm discards the staging file and restores file/wal/header/toc/data_end/generation/dirty; no public entry point gains a function that writes "
-             "the live file in place beyond the reviewed per-entry set.",
+             "the live file in place beyond the reviewed per-entry set; every u64 *offset field reachable in the type graph of Toc is moved by adjust_offsets_after_wal_growth, "
+             "which both growth paths call after the data shift and before the TOC rewrite.",
         note="Not decided: the state after a crash at each file-system mutation (crash points are runtime). The reviewed in-place paths (WAL append, WAL growth shift, tickets, "
-             "commit_skip_indexes, vacuum, open-time recovery, doctor) are listed, not proved crash-atomic.",
+             "commit_skip_indexes, vacuum, open-time recovery, doctor) are listed, not proved crash-atomic. The coverage rule found a genuine defect (five manifests not shifted on WAL growth), "
+             "repaired by fix commit d68ec9b. Known finding (open, feature replay): save_replay_sessions overwrites the committed TOC/footer in place.",
         design_ref="DESIGN.md §4 C02"),
     "C19": dict(
         technique="interprocedural path-provenance analysis of every file-system creation sink reachable from the public API (backward slices through local callees), RAII pairing of the staging object, dominance of ensure_single_file before the first open",
